@@ -1,5 +1,6 @@
 import Proofs.Ledger.NodesExamples
 import Proofs.Ledger.NodesUnstake
+import Proofs.Ledger.NodesWaiting
 /-!
 # C24 — Unstaking returns the stake exactly once, and only when due (node part)
 
@@ -55,6 +56,32 @@ theorem begin_unstake_requires (s : State) (a signer : Addr) (hok : (handleBegin
       · simp only [if_neg h1, if_neg h2]
         refine ⟨v, rfl, by simpa using h2, ?_, rfl, rfl⟩
         cases hb : signerOk v.addr v.output signer <;> simp_all
+
+/-- How a node gets into the waiting set through transactions and burns: a begin-unstake message queues the
+node iff it is accepted; an unjail message queues nobody except — on its rejected "stake below the minimum"
+path, signed by operator/output — the node itself (a forced unstake); a stake/edit message never touches the
+set; a burn queues the slashed node iff its stake falls below the minimum.  (The remaining source,
+`IncrementJailedValidators`, is part of `leaves_staked_only_via`.) -/
+theorem waiting_entry_causes (s : State) (hi : Inv s) :
+    (∀ a signer, (handleBeginUnstake s a signer).1.waiting =
+        if (handleBeginUnstake s a signer).2 = .ok then sins s.waiting a else s.waiting) ∧
+    (∀ h t now a signer, (handleUnjail s h t now a signer).1.waiting = s.waiting ∨
+        ∃ v, aget s.vals a = some v ∧ signerOk v.addr v.output signer = true ∧ v.tokens < s.params.minStake ∧
+          (handleUnjail s h t now a signer).1.waiting = sins s.waiting v.addr ∧ (handleUnjail s h t now a signer).2 ≠ .ok) ∧
+    (∀ h m signer, (handleStake s h m signer).1.waiting = s.waiting) ∧
+    (∀ a v amount, aget s.vals a = some v → 0 < amount →
+        (v.tokens - burnAmount amount v.tokens < s.params.minStake → a ∈ (simpleSlash s a amount).waiting) ∧
+        (s.params.minStake ≤ v.tokens - burnAmount amount v.tokens → (simpleSlash s a amount).waiting = s.waiting)) :=
+  ⟨fun a signer => waiting_after_beginUnstake s a signer (fun v hv => hi.keys a v hv),
+   fun h t now a signer => waiting_after_unjail s h t now a signer,
+   fun h m signer => waiting_after_stake s h m signer,
+   fun a v amount hv hpos => waiting_after_burn s hi a v hv amount hpos⟩
+
+/-- a rejected unjail of a node whose stake fell below a raised minimum queues it (no rollback in deliver mode) -/
+example :
+    let s1 := step (step Ex.s0 (.setParams { Ex.p0 with minStake := 25000000 })) (.unjail 5 2000 2000 Ex.A Ex.O)
+    Ex.A ∈ s1.waiting ∧ (handleUnjail (step Ex.s0 (.setParams { Ex.p0 with minStake := 25000000 })) 5 2000 2000 Ex.A Ex.O).2 = .err 105 := by
+  decide
 
 /-- The stake is paid in full, once, to the output address (the operator's address when none is set), and the
 record no longer exists afterwards: `FinishUnstakingValidator` + `DeleteValidator` on a record of the store. -/
